@@ -56,6 +56,10 @@ bool Instance::parse_transaction(const char* txdata, bool parse_amounts) {
     }
     tx = parse_tx(p);
     if (!tx) return false;
+    if (tx->vin.empty()) {
+        fprintf(stderr, "error: the spending (--tx) transaction has no inputs\n");
+        return false;
+    }
     while (amounts.size() < tx->vin.size()) amounts.push_back(0);
     if (tx->HasWitness()) sigver = SigVersion::WITNESS_V0;
     return true;
